@@ -8,6 +8,7 @@ import ElfioVerif.Driver.C11
 import ElfioVerif.Driver.C12
 import ElfioVerif.Driver.C10
 import ElfioVerif.Driver.C09
+import ElfioVerif.Driver.C19
 open ElfioVerif.Drv
 
 def main (args : List String) : IO UInt32 := do
@@ -21,4 +22,5 @@ def main (args : List String) : IO UInt32 := do
   | ["c12"] => mainLoop C12.runCase; return 0
   | ["c10"] => mainLoop C10.runCase; return 0
   | ["c09"] => mainLoop C09.runCase; return 0
+  | ["c19"] => mainLoop C19.runCase; return 0
   | _ => IO.eprintln "usage: driver <family>"; return 2
